@@ -10,8 +10,8 @@ import zipfile
 from common import scratch_dir
 
 LEVEL = 'proof'
-MODULES = ['Pysmi.Props.C14', 'Pysmi.Pins.SkelC14']
-LAKE_TARGETS = ['Pysmi.Props.C14', 'Pysmi.Pins.SkelC14']
+MODULES = ['Pysmi.Props.C14', 'Pysmi.Props.C14Tree', 'Pysmi.Pins.SkelC14']
+LAKE_TARGETS = ['Pysmi.Props.C14', 'Pysmi.Props.C14Tree', 'Pysmi.Pins.SkelC14']
 THEOREMS = [
     'Pysmi.Pins.SkelC14.pin_fileReaderGet',
     'Pysmi.Pins.SkelC14.pin_fileReaderVariants',
@@ -25,13 +25,13 @@ THEOREMS = [
     'Pysmi.Reader.C14_never_truncated',
     'Pysmi.Reader.C14_zip_lookup_sound',
     'Pysmi.Reader.C14_zip_members_top',
-    'Pysmi.Reader.C14_url_kind', 'Pysmi.Reader.C14_url_target', 'Pysmi.Reader.C14_plain_path_whole',
+    'Pysmi.Reader.C14_url_kind', 'Pysmi.Reader.C14_url_target', 'Pysmi.Reader.C14_plain_path_whole', 'Pysmi.Tree.C14_tree_count', 'Pysmi.Tree.C14_tree_every_dir_searched', 'Pysmi.Tree.C14_tree_root_first',
 ]
 TECHNIQUE = ('Lean 4 theorems about a model of getMibVariants, .index precedence, directory-tree lookup, the ZIP member table '
              '(any nesting) and URL->reader kind; differential correspondence against FileReader/ZipReader/getReadersFromUrls on '
              'generated directory trees and nested archives; oracle search')
 LEVEL_TEXT = ('Proved in Lean for every ASCII module name, every setting of the matching switches, every extension list, every '
-              'directory tree (visiting order is a model input) and archives nested to any depth: every file name tried is a '
+              'directory tree (the reader searches the directories of the tree in pre-order, each once, whatever the depth, linked directories included: C14_tree_count, C14_tree_every_dir_searched, C14_tree_root_first, compared with getSubdirs on every generated tree; only the order of a directory listing is a model input) and archives nested to any depth: every file name tried is a '
               'documented variant (never an unrelated name); for every setting of the switches the variant list exists and every spelling switched on is tried with every extension and every fuzzy form (C14_variants_total, C14_variants_complete_all); .index is a dictionary of its lines - last line for a module counts, lines without two fields map nothing - and its '
               'entry is the only file tried; the directory lookup returns a regular file of the tree named like a tried variant and '
               'reports not-found exactly when no directory holds one; every ZIP member-table entry is the content and mtime of an '
@@ -42,7 +42,7 @@ LEVEL_NOTE = ('Trusted: Lean kernel + standard axioms; hand-written model (Model
               'zipfile, urlparse and utf-8 decoding in CPython; module names are ASCII (upper/lower are modelled for ASCII only).')
 ASSUMPTIONS = [
     'module names and file names are ASCII',
-    'the order in which FileReader visits directories (os.listdir) is taken from the real reader and given to the model',
+    'the order of the entries of one directory (os.listdir) is taken from the file system and given to the model; the order of directories is the model\'s (pre-order of the tree built by an independent walk)',
     'zipfile reads nested members correctly once given a seekable file object',
 ]
 
@@ -130,6 +130,19 @@ def tree_dirs(root):
     return out
 
 
+def tree_of(path):
+    """the tree below path as the model takes it: names of plain files (sorted) and sub-directories in listing order; a link to a
+    directory is a directory"""
+    files, subs = [], []
+    for e in os.listdir(path):
+        p = os.path.join(path, e)
+        if os.path.isdir(p):
+            subs.append(tree_of(p))
+        elif os.path.isfile(p) and e != '.index':
+            files.append(e)
+    return {'files': sorted(files), 'subs': subs}
+
+
 def run_filereader(rng, name, opts, use_index_entry):
     from pysmi.reader.localfile import FileReader
     from pysmi import error
@@ -201,6 +214,7 @@ def run_filereader(rng, name, opts, use_index_entry):
         req = dict(opts, op='filereader', name=name, exts=EXTS, index=index, useIndex=True, dirs=listing, large=large, indexJunk=list(junk), links=link_idx)
         present = {os.path.basename(k) for k in files}
         run_filereader.missing_dirs = [os.path.relpath(d, root) for d in missing_dirs]
+        run_filereader.tree = (tree_of(root), [sorted(fn for fn in os.listdir(d) if os.path.isfile(os.path.join(d, fn)) and fn != '.index') for d in dirs])
         return got, exact, req, present, index
     finally:
         shutil.rmtree(base, ignore_errors=True)
@@ -399,7 +413,7 @@ def run(ctx):
                 'base names, directory entries, empty and invalid-UTF-8 contents) x module names x option settings (default and '
                 'random switch settings); URL shapes enumerated; non-trivial = at least one file/member present; distinct by tree+request')
     n = 150 if ctx.tier == 'quick' else 2500
-    reqs, metas = [], []
+    reqs, metas, treqs = [], [], []
     for i in range(n):
         name = rng.choice(NAMES)
         opts = gen_opts(rng)
@@ -430,6 +444,7 @@ def run(ctx):
                     name, sorted(hit)), 'input': {'filereader': req}})
         reqs.append(req)
         metas.append(('dir', got))
+        treqs.append(({'op': 'subdirs', 'tree': run_filereader.tree[0]}, run_filereader.tree[1]))
     lookups = []
     for i in range(n):
         name = rng.choice(NAMES)
@@ -482,6 +497,11 @@ def run(ctx):
                 res.corr_failures.append({'what': '%s reader differs from Model.Reader' % tag, 'req': req, 'impl': got, 'model': out})
         res.sample({'request': reqs[0], 'impl': metas[0][1]})
         res.sample({'request': reqs[n], 'impl': metas[n][1]})
+        # the directories searched, in order, vs the pre-order of the tree (Model.Tree)
+        for (treq, impl_rows), out in zip(treqs, ctx.model.batch([t for t, _ in treqs])):
+            res.count('subdirs-trees')
+            if out.get('dirs') != impl_rows:
+                res.corr_failures.append({'what': 'getSubdirs differs from Model.Tree.flatten', 'tree': treq['tree'], 'impl': impl_rows, 'model': out.get('dirs')})
 
 
 def search(ctx):
